@@ -57,6 +57,53 @@ def visitor_calls(F, body, tb, visitor_param):
     return out
 
 
+def const_sums(F, t, depth):
+    """Set of possible constant parts of an integer sum term (non-constant addends count 0); 'inf' when a loop adds a constant."""
+    if depth > 8 or not isinstance(t, tuple) or not t:
+        return {'?'}
+    k = t[0]
+    if k == 'int':
+        return {t[1]}
+    if k == 'cast':
+        return const_sums(F, t[1], depth)
+    if k == 'binop' and t[1] in ('Add', 'AddWithOverflow', 'AddUnchecked'):
+        a, b = const_sums(F, t[2], depth), const_sums(F, t[3], depth)
+        return {(x + y) if isinstance(x, int) and isinstance(y, int) else '?' for x in a for y in b}
+    if k == 'binop':
+        return {'?'}
+    if k == 'rec':
+        return {0}
+    if k == 'phi':
+        base = [a for a in t[1] if not has_free_rec(a)]
+        loop = [a for a in t[1] if has_free_rec(a)]
+        out = set()
+        for a in base:
+            out |= const_sums(F, a, depth)
+        for a in loop:
+            if const_sums(F, a, depth) != {0}:
+                return {'inf'}
+        return out
+    if k == 'partial':
+        # store through a reference / into a place: the new value
+        return const_sums(F, t[3], depth)
+    if k == 'mut':
+        # accumulator handed to a crate-local helper by &mut: its value before + what the helper adds to its out-parameter
+        c = CALLEES.get(t[1])
+        hb = F.by_hash.get(c.best_hash) if c is not None else None
+        if hb is None:
+            return {'?'}
+        before = const_sums(F, t[3][t[2]], depth)
+        htb = TermBuilder(F, hb)
+        rets = [i for i in hb.normal_blocks() if (hb.term(i) or {}).get('k') == 'return']
+        added = set()
+        for r in rets:
+            added |= const_sums(F, htb.local_term(t[2] + 1, r, len(hb.blocks[r]['stmts'])), depth + 1)
+        return {(x + y) if isinstance(x, int) and isinstance(y, int) else '?' for x in before for y in added}
+    if k in ('call', 'param', 'vfield', 'elem', 'len', 'callv', 'upvar'):
+        return {0}
+    return {'?'}
+
+
 def check(ctx):
     F = ctx.F
     w, structs, trees = walk_roles(ctx)
@@ -152,22 +199,14 @@ def check(ctx):
                     ctx.ok('C15.3', cv[k][0]['site'], 'count recurses into %s once' % k)
                 else:
                     ctx.fail('C15.3', ctx.site(b), 'count recurses into %s %d times (expected once)' % (k, n), key='C15.3|cover|' + k)
-            # +1 for self: an `Add(acc, 1)` store that post-dominates entry
-            btb = TermBuilder(F, b)
-            ones = []
-            for bi, bl in enumerate(b.blocks):
-                if bl['cleanup']:
-                    continue
-                for si, st in enumerate(bl['stmts']):
-                    if st['k'] == 'assign' and st['rv']['k'] == 'binop' and st['rv']['op'] in ('AddWithOverflow', 'Add'):
-                        tv_ = btb.rvalue_term(st['rv'], bi, si)
-                        if const_int(tv_[3]) == 1 or const_int(tv_[2]) == 1:
-                            ones.append(bi)
-            rets = [i for i in b.normal_blocks() if (b.term(i) or {}).get('k') == 'return']
-            if len(ones) == 1 and not any(r in b.reachable(0, removed_blocks=ones) for r in rets):
-                ctx.ok('C15.3', ctx.site(b, ones[0]), 'exactly one unconditional +1 for the element itself')
+            # +1 for self: on every path the constant part of the returned sum is exactly 1 (the recursive calls are the
+            # non-constant addends, judged by the coverage above). Read from the value term of the result, whatever way the
+            # accumulator is written (`let mut n = 1; n += ..`, `n = 0; n += 1`, an out-parameter of a nested helper, ..).
+            sums = const_sums(F, return_term_of(F, ec), 0)
+            if sums == {1}:
+                ctx.ok('C15.3', ctx.site(b), 'the constant part of the returned count is 1 on every path (one for the element itself)')
             else:
-                ctx.fail('C15.3', ctx.site(b), 'element count does not add exactly 1 per element (%d increments by one found)' % len(ones), key='C15.3|self')
+                ctx.fail('C15.3', ctx.site(b), 'element count does not add exactly 1 per element (constant part of the sum: %s)' % sorted(sums, key=str), key='C15.3|self')
     # ---------------- C15.4 digests(limit)
     dg = F.method1('Envelope', 'digests')
     if dg is None:
